@@ -1,7 +1,277 @@
-//! Correspondence harness of property C01 (stub).
-use mzkh::Ctx;
+//! Correspondence harness of property C01: honest proofs verify for every circuit shape and
+//! proving configuration.
+//!
+//! For members of the generated circuit family × number of proofs × committed/plain instance
+//! split × transcript hash: real keygen, real `create_proof`, real `prepare` + `verify`, all
+//! through a `RecordingTranscript`. Emitted per case:
+//!  * `schedule P <shape> <cfg>` → the prover's transcript events (kind:type tokens),
+//!  * `schedule V <shape> <cfg>` → the verifier's transcript events,
+//!  * `prooflen <shape> <cfg>`  → length of the proof in bytes,
+//! which the Lean model (`proverSchedule` / `verifierSchedule` / `proofLen`) must reproduce from
+//! the dumped constraint-system shape. Oracle: the honest proof verifies, the transcript is
+//! consumed exactly, and prover and verifier absorbed byte-identical elements.
+
+use std::collections::HashMap;
+
+use blake2b_simd::State as Blake2bState;
+use midnight_circuits::hash::poseidon::PoseidonState;
+use midnight_curves::{Bls12, Fq as F, G1Projective};
+use midnight_proofs::{
+    plonk::{
+        commit_to_instances, create_proof, keygen_pk, keygen_vk_with_k, prepare, ProvingKey,
+    },
+    poly::{
+        commitment::Guard,
+        kzg::{params::ParamsKZG, KZGCommitmentScheme},
+    },
+    transcript::{Hashable, Sampleable, Transcript, TranscriptHash},
+};
+use mzkh::{
+    family::{sample_params, FamCircuit, FamParams, GateKind, LookupKind},
+    recording::{take_log, Event, RecordingTranscript},
+    Ctx,
+};
+use rand::{Rng, SeedableRng};
+use rand_chacha::ChaCha8Rng;
+use serde_json::json;
+
+type Scheme = KZGCommitmentScheme<Bls12>;
+
+fn tokens(ev: &[Event]) -> String {
+    ev.iter()
+        .map(|e| match e.kind {
+            'S' => "S".to_string(),
+            'C' => format!("C{}", e.ty),
+            _ => format!("E{}", e.ty),
+        })
+        .collect::<Vec<_>>()
+        .join(" ")
+}
+
+fn fmt_queries<C>(qs: &[(C, midnight_proofs::poly::Rotation)], idx: impl Fn(&C) -> usize) -> String {
+    if qs.is_empty() {
+        "-".into()
+    } else {
+        qs.iter().map(|(c, r)| format!("{}:{}", idx(c), r.0)).collect::<Vec<_>>().join(",")
+    }
+}
+
+pub fn shape_string(pk: &ProvingKey<F, Scheme>, k: u32) -> String {
+    let cs = pk.get_vk().cs();
+    let ap: Vec<u8> = cs.advice_column_phase();
+    let cp: Vec<u8> = cs.challenge_phase();
+    format!(
+        "ap={} cp={} aq={} iq={} fq={} nl={} nt={} pc={} deg={} bl={} k={}",
+        mzkh::join(&ap),
+        mzkh::join(&cp),
+        fmt_queries(cs.advice_queries(), |c| c.index()),
+        fmt_queries(cs.instance_queries(), |c| c.index()),
+        fmt_queries(cs.fixed_queries(), |c| c.index()),
+        cs.lookups().len(),
+        cs.trashcans().len(),
+        cs.permutation().get_columns().len(),
+        cs.degree(),
+        cs.blinding_factors(),
+        k
+    )
+}
+
+struct Setup {
+    params: HashMap<u32, ParamsKZG<Bls12>>,
+}
+
+impl Setup {
+    fn get(&mut self, k: u32) -> &ParamsKZG<Bls12> {
+        self.params
+            .entry(k)
+            .or_insert_with(|| ParamsKZG::<Bls12>::unsafe_setup(k, ChaCha8Rng::seed_from_u64(k as u64 + 99)))
+    }
+}
+
+/// One family member, proven `n_proofs` times together, verified; returns whether it verified.
+#[allow(clippy::too_many_arguments)]
+fn run_case<H: TranscriptHash>(
+    ctx: &mut Ctx,
+    setup: &mut Setup,
+    hash_name: &str,
+    fp: &FamParams,
+    n_proofs: usize,
+    extra_k: u32,
+    seed: u64,
+) where
+    F: Hashable<H> + Sampleable<H>,
+    G1Projective: Hashable<H>,
+{
+    let circuits: Vec<FamCircuit> = (0..n_proofs).map(|i| FamCircuit::new(fp.clone(), seed + i as u64)).collect();
+    // find the smallest k for which key generation succeeds, then add extra_k
+    let mut k = 4;
+    let (pk, k) = loop {
+        let params = setup.get(k).clone();
+        match keygen_vk_with_k::<F, Scheme, _>(&params, &circuits[0], k) {
+            Ok(vk) => {
+                if extra_k > 0 {
+                    let k2 = k + extra_k;
+                    let params2 = setup.get(k2).clone();
+                    let vk2 = keygen_vk_with_k::<F, Scheme, _>(&params2, &circuits[0], k2).unwrap();
+                    break (keygen_pk(vk2, &circuits[0]).unwrap(), k2);
+                }
+                break (keygen_pk(vk, &circuits[0]).unwrap(), k);
+            }
+            Err(_) if k < 10 => k += 1,
+            Err(e) => panic!("keygen failed: {e:?}"),
+        }
+    };
+    let params = setup.get(k).clone();
+    let shape = shape_string(&pk, k);
+    let insts: Vec<Vec<Vec<F>>> = circuits.iter().map(|c| c.instances()).collect();
+    let lens = insts
+        .iter()
+        .map(|cols| mzkh::join(&cols[fp.n_committed..].iter().map(|c| c.len()).collect::<Vec<_>>()))
+        .collect::<Vec<_>>()
+        .join("|");
+    let cfg = format!("np={} nc={} lens={}", n_proofs, fp.n_committed, lens);
+    let desc = json!({"params": format!("{fp:?}"), "n_proofs": n_proofs, "k": k, "hash": hash_name, "seed": seed});
+    let key = format!(
+        "honest-rejected:np={},nc={},npl={},{}",
+        n_proofs,
+        fp.n_committed,
+        fp.n_plain,
+        hash_name
+    );
+
+    // prove
+    let inst_refs: Vec<Vec<&[F]>> = insts.iter().map(|cols| cols.iter().map(|c| &c[..]).collect()).collect();
+    let inst_refs2: Vec<&[&[F]]> = inst_refs.iter().map(|c| &c[..]).collect();
+    take_log();
+    let mut tr = RecordingTranscript::<H>::init();
+    let res = mzkh::catch(|| {
+        create_proof::<F, Scheme, _, _>(
+            &params,
+            &pk,
+            &circuits,
+            fp.n_committed,
+            &inst_refs2,
+            ChaCha8Rng::seed_from_u64(seed ^ 0xbeef),
+            &mut tr,
+        )
+    });
+    let p_events = take_log();
+    match res {
+        Ok(Ok(())) => {}
+        other => {
+            ctx.oracle_fail(&format!("{key}:prover"), "create_proof failed on a satisfying witness", json!({"case": desc, "result": format!("{other:?}")}));
+            return;
+        }
+    }
+    let proof = tr.finalize();
+    ctx.case("schedule-prover", true, &format!("schedule P {shape} {cfg}"), &tokens(&p_events));
+    ctx.case("prooflen", true, &format!("prooflen {shape} {cfg}"), &proof.len().to_string());
+
+    // verify
+    let domain = pk.get_vk().get_domain();
+    let commitments: Vec<Vec<G1Projective>> = insts
+        .iter()
+        .map(|cols| cols[..fp.n_committed].iter().map(|c| commit_to_instances::<F, Scheme>(&params, domain, c)).collect())
+        .collect();
+    let com_refs: Vec<&[G1Projective]> = commitments.iter().map(|c| &c[..]).collect();
+    let plain_refs: Vec<Vec<&[F]>> =
+        insts.iter().map(|cols| cols[fp.n_committed..].iter().map(|c| &c[..]).collect()).collect();
+    let plain_refs2: Vec<&[&[F]]> = plain_refs.iter().map(|c| &c[..]).collect();
+    let mut vt = RecordingTranscript::<H>::init_from_bytes(&proof);
+    let vres = mzkh::catch(|| {
+        let guard = prepare::<F, Scheme, _>(pk.get_vk(), &com_refs, &plain_refs2, &mut vt).map_err(|e| format!("{e:?}"))?;
+        vt.assert_empty().map_err(|e| format!("trailing: {e:?}"))?;
+        guard.verify(&params.verifier_params()).map_err(|e| format!("{e:?}"))
+    });
+    let v_events = take_log();
+    ctx.case("schedule-verifier", true, &format!("schedule V {shape} {cfg}"), &tokens(&v_events));
+    ctx.count(&format!("np={n_proofs}"));
+    ctx.count(&format!("nc={}", fp.n_committed));
+    ctx.count(&format!("k={k}"));
+    ctx.count(&format!("hash={hash_name}"));
+    for g in &fp.gates {
+        ctx.count(&format!("gate={g:?}"));
+    }
+    for l in &fp.lookups {
+        ctx.count(&format!("lookup={l:?}"));
+    }
+    match vres {
+        Ok(Ok(())) => {
+            // prover and verifier must have absorbed byte-identical elements in the same order
+            let same = p_events.len() == v_events.len()
+                && p_events.iter().zip(v_events.iter()).all(|(a, b)| a.bytes == b.bytes && a.ty == b.ty);
+            if !same {
+                ctx.oracle_fail(&format!("{key}:bytes"), "verifier accepted but absorbed different bytes than the prover", json!({"case": desc}));
+            }
+        }
+        other => {
+            ctx.oracle_fail(&key, "honest proof rejected by the verifier", json!({"case": desc, "result": format!("{other:?}"), "shape": shape, "cfg": cfg}));
+        }
+    }
+}
+
+fn both_hashes(ctx: &mut Ctx, setup: &mut Setup, fp: &FamParams, n_proofs: usize, extra_k: u32, seed: u64, poseidon: bool) {
+    run_case::<Blake2bState>(ctx, setup, "blake2b", fp, n_proofs, extra_k, seed);
+    if poseidon {
+        run_case::<PoseidonState<F>>(ctx, setup, "poseidon", fp, n_proofs, extra_k, seed);
+    }
+}
 
 fn main() {
-    let ctx = Ctx::from_args("C01");
+    let mut ctx = Ctx::from_args("C01");
+    let mut setup = Setup { params: HashMap::new() };
+    let mut rng = ctx.rng("family");
+
+    // corpus first: the configuration of defect D1 (2 and 3 proofs, one committed + one plain column)
+    let d1 = FamParams { n_committed: 1, n_plain: 1, ..FamParams::default() };
+    both_hashes(&mut ctx, &mut setup, &d1, 2, 0, 11, true);
+    both_hashes(&mut ctx, &mut setup, &d1, 3, 0, 12, false);
+    // every gate / lookup kind at least once
+    let every = FamParams {
+        n_adv0: 4,
+        n_adv1: 1,
+        unblinded: true,
+        n_committed: 1,
+        n_plain: 2,
+        gates: vec![GateKind::Mul, GateKind::LinRot, GateKind::Pow(6), GateKind::Additive, GateKind::Complex, GateKind::Chal],
+        lookups: vec![LookupKind::Range, LookupKind::Pair, LookupKind::AnyInstance],
+        copies: true,
+        const_copies: true,
+        inst_copies: true,
+        steps: 9,
+        table_bits: 3,
+    };
+    both_hashes(&mut ctx, &mut setup, &every, 1, 0, 13, true);
+    both_hashes(&mut ctx, &mut setup, &every, 2, 0, 14, false);
+
+    let (n_random, search_cfgs) = match ctx.tier.as_str() {
+        "quick" => (14, false),
+        "thorough" => (150, true),
+        _ => (40, true),
+    };
+    for i in 0..n_random {
+        let fp = sample_params(&mut rng);
+        let n_proofs = rng.gen_range(1..=if ctx.quick() { 3 } else { 4 });
+        let extra_k = if rng.gen_bool(0.2) { rng.gen_range(1..=2) } else { 0 };
+        let poseidon = i % 3 == 0;
+        both_hashes(&mut ctx, &mut setup, &fp, n_proofs, extra_k, 1000 + i as u64, poseidon);
+    }
+    if search_cfgs {
+        // failing-input search: enumerate configurations on the smallest members
+        for np in 1..=3 {
+            for nc in 0..=2 {
+                for npl in 0..=2 {
+                    for (gates, lookups) in [
+                        (vec![GateKind::Mul], vec![]),
+                        (vec![GateKind::Additive, GateKind::Chal], vec![LookupKind::Range]),
+                    ] {
+                        let n_adv1 = if gates.contains(&GateKind::Chal) { 1 } else { 0 };
+                        let fp = FamParams { n_committed: nc, n_plain: npl, gates, lookups, n_adv1, steps: 3, ..FamParams::default() };
+                        run_case::<Blake2bState>(&mut ctx, &mut setup, "blake2b", &fp, np, 0, 7000 + (np * 100 + nc * 10 + npl) as u64);
+                    }
+                }
+            }
+        }
+    }
     ctx.finish();
 }
